@@ -217,8 +217,10 @@ def check_one(acc, op, ka, ua, va, kb, ub, vb, pre=False):
             # rounding slack at the constraint boundary for sums/differences
             slack = F(1, 10 ** 12) * max(abs(ma), abs(mb)) if op in '+-' else 0
             for k in allowed:
-                if k != 'number' and (violates(k, mexp) or
-                                      (si.CONSTRAINT.get(k) and abs(mexp) <= slack)):
+                if k == 'number':
+                    continue
+                exact_zero_ok = (si.CONSTRAINT.get(k) == 'nonneg' and ua == ub and mexp == 0)
+                if violates(k, mexp) or (si.CONSTRAINT.get(k) and abs(mexp) <= slack and not exact_zero_ok):
                     ok = True
         if not ok:
             acc.violation(f'C06/spurious-ValueError/{pair}',
